@@ -324,6 +324,10 @@ var envPkgs = map[string]bool{"os": true, "syscall": true, "os/exec": true, "os/
 func silencedResults(sig *types.Signature) Value {
 	r := sig.Results()
 	mk := func(t types.Type) Value {
+		if fs, ok := t.Underlying().(*types.Signature); ok {
+			// a silenced function returning a function (e.g. a deferred timer stop): a no-op
+			return &NativeFn{name: "silenced-func", f: func(w *World, th *Thread, args []Value) Value { return silencedResults(fs) }}
+		}
 		if p, ok := t.Underlying().(*types.Pointer); ok {
 			if _, ok := p.Elem().Underlying().(*types.Struct); ok {
 				c := new(Value)
